@@ -37,7 +37,7 @@ ASSUMPTIONS = [
     "gradient exactness is demanded for linear functions only (as stated); for general multilinear functions adaptive == static is demanded",
 ]
 PROBES = ["dim1", "dim2", "dim3", "point_on_vertex", "point_on_grid_line", "point_on_upper_boundary", "point_on_lower_boundary", "batch_revisits_cell",
-          "warm_batch", "partial_batch", "gradient_query", "linear_function", "shifted_base_point", "negative_indices", "query_buffer_reused_in_place", "external_values_mode", "known_vertices_reassigned", "vector_valued_function", "function_defined_on_box_only", "rejected_query_outside_box", "twin_instance_used_in_between", "long_history"]
+          "warm_batch", "partial_batch", "gradient_query", "linear_function", "shifted_base_point", "negative_indices", "query_buffer_reused_in_place", "external_values_mode", "known_vertices_reassigned", "vector_valued_function", "function_defined_on_box_only", "rejected_query_outside_box", "twin_instance_used_in_between", "long_history", "default_base_point"]
 
 
 def make_function(ch, d, linear):
@@ -101,8 +101,12 @@ def run_history_c41(ch, tr: Trace) -> None:
         else:
             low = np.array([-2.0 + 4.0 * ch.unit() for _ in range(d)])
             h = np.array([0.05 + ch.unit() for _ in range(d)])
-        high = low + h * (npt - 1)
         shift = np.array([ch.rng(-2, 2) if ch.flag(1, 3) else 0 for _ in range(d)])
+        # the documented default of the adaptive table's base point is the origin: used when the origin is a grid point
+        default_base = ch.flag(1, 6)
+        if default_base:
+            low = -shift * h
+        high = low + h * (npt - 1)
         f, gradf, coefs = make_function(ch, d, linear)
         # vector-valued functions (constructor argument ``dim``, "dimension of the field to interpolate")
         vdim = ch.choice([1, 1, 1, 2, 3])
@@ -124,7 +128,7 @@ def run_history_c41(ch, tr: Trace) -> None:
         tr.probe("shifted_base_point")
     if np.any(shift > 0):
         tr.probe("negative_indices")
-    vv = "_vector_valued" if vdim > 1 else ""
+    vv = ("_vector_valued" if vdim > 1 else "") + ("_default_base_point" if default_base else "")
     if vdim > 1:
         tr.probe("vector_valued_function")
     static = pp.InterpolationTable(low, high, npt, f, dim=vdim)
@@ -143,7 +147,11 @@ def run_history_c41(ch, tr: Trace) -> None:
     if guarded:
         tr.probe("function_defined_on_box_only")
     try:
-        adaptive = pp.AdaptiveInterpolationTable(h.copy(), base_point=base.copy(), function=None if external else (f_guarded if guarded else f), dim=vdim)
+        if default_base:
+            tr.probe("default_base_point")
+            adaptive = pp.AdaptiveInterpolationTable(h.copy(), function=None if external else (f_guarded if guarded else f), dim=vdim)
+        else:
+            adaptive = pp.AdaptiveInterpolationTable(h.copy(), base_point=base.copy(), function=None if external else (f_guarded if guarded else f), dim=vdim)
     except Exception as e:  # noqa: BLE001
         raise Violation("adaptive_answers_every_point_in_box", f"constructing the adaptive table for a {vdim}-valued function raised {e!r}", "adaptive_constructor_raised")
     verts = np.array(list(itertools.product(*[np.linspace(low[i], high[i], npt[i]) for i in range(d)]))).T
